@@ -844,7 +844,7 @@ class Oracle:
         inferred = self.infer_new(e, env, expected)
         return ('P', k[1], tuple(inferred))
 
-    def infer_new(self, e, env, expected):
+    def constraints_new(self, e, env, expected):
         k = self.skey(e.class_type)
         ci = self.cls.get(k[1])
         if ci is None:
@@ -857,7 +857,10 @@ class Oracle:
             if self.mentions(ft, tv):
                 self.constrain_arg(ft, self.try_type(a, env, None), tv, out)
         self.constrain_expected(self.self_type(ci), expected, tv, out)
-        return self.solve(ci.params, ci.bounds, out, list(k[2]))
+        return ci.params, ci.bounds, out, list(k[2])
+
+    def infer_new(self, e, env, expected):
+        return self.solve(*self.constraints_new(e, env, expected))
 
     def callee_signature(self, call, env):
         d, m, fvar = self.resolve_call(call, env)
@@ -902,7 +905,7 @@ class Oracle:
                 m.update(dict(zip(names, inferred)))
         return self.read(self.subst(ret, m))
 
-    def infer_call(self, e, env, expected, d, m, params, ret):
+    def constraints_call(self, e, env, expected, d, m, params, ret):
         names = [t.name for t in d.type_parameters]
         tv = set(names)
         bounds = {t.name: self.subst(self.skey(t.bound), m) for t in d.type_parameters}
@@ -914,10 +917,12 @@ class Oracle:
             if ft is not None and self.mentions(ft, tv):
                 self.constrain_arg(ft, self.try_type(a, env, None), tv, out)
         self.constrain_expected(self.subst(ret, m), expected, tv, out)
-        recorded = [self.skey(t) for t in e.type_args] if e.type_args else [None] * len(names)
         if not e.type_args:
             raise Unknown('call without recorded type arguments')
-        return self.solve(names, bounds, out, recorded)
+        return names, bounds, out, [self.skey(t) for t in e.type_args]
+
+    def infer_call(self, e, env, expected, d, m, params, ret):
+        return self.solve(*self.constraints_call(e, env, expected, d, m, params, ret))
 
     # -- scopes ------------------------------------------------------------------------------------------------
     def collect_locals(self, node, env):
@@ -996,7 +1001,7 @@ class Walker:
         except Unknown as e:
             self.record(kind, node, 'undecided', where, str(e))
         except Narrowed as e:
-            self.record(kind + '[narrowed]', node, 'violation', where, str(e))
+            self.record(kind + '-narrowed', node, 'violation', where, str(e))
         except (NoInfer, Mismatch) as e:
             self.record(kind, node, 'violation', where, str(e))
         except RecursionError:
@@ -1271,6 +1276,111 @@ class Walker:
                 self.expr(c, env, None, where)
 
 
+class RejectWalker(Walker):
+    """'a correct type checker must reject': as far as the local reference can tell.  verdict:
+       'rejects'   - the mutated annotation definitely conflicts with its initializer / body / arguments / expected type
+       'accepts'   - nothing in the program constrains the replaced type argument, or every constraint is compatible
+       'undecided' - anything else (e.g. the conflict could only come from later uses of the declaration)"""
+
+    def __init__(self, oracle, node, kind, index=None):
+        ids = {id(node)}
+        super().__init__(oracle, ids if kind == 'variable' else set(), ids if kind == 'function' else set(),
+                         ids if kind == 'constructor-call' else set(), ids if kind == 'function-call' else set())
+        self.index = index
+        self.verdict = ('undecided', 'mutated node not reached by the reference')
+
+    def _fits(self, s, t, env):
+        """may a value of type s be used where t is declared; None = cannot tell"""
+        o = self.o
+        if s is None or t is None:
+            return None
+        try:
+            if o.sub(s, t, env):
+                return True
+        except Unknown:
+            return None
+        if o.lang in ('java', 'groovy') and s[0] == 'B' and t[0] == 'B':
+            if t[1] in JAVA_WIDEN.get(s[1], []) or o.lang == 'groovy':
+                return None          # boxing / widening depends on primitive-ness, Groovy converts numbers freely
+        if s[0] == 'W' or t[0] == 'W' or s[0] == 'V' and env is not None and not env.has_tv(s[1]):
+            return None
+        return False
+
+    def _decl(self, name, new_t, value_type, env):
+        o = self.o
+        if value_type is None:
+            self.verdict = ('undecided', 'type of the initializer / body is not known to the reference')
+            return
+        fits = self._fits(value_type, o.skey(new_t), env)
+        if fits is False:
+            self.verdict = ('rejects', '%s: a value of type %s does not fit the new declared type %s'
+                            % (name, o.show(value_type), o.show(o.skey(new_t))))
+        else:
+            self.verdict = ('undecided', 'the initializer fits (or may fit) the new type; a conflict could only come '
+                                         'from other uses of %s' % name)
+
+    def check_var(self, v, env, where):
+        self._decl(v.name, v.var_type, self.o.try_type(v.expr, env, None), env)
+
+    def check_ret(self, f, env, where):
+        o = self.o
+        body = f.body
+        if body is None:
+            self.verdict = ('undecided', 'abstract function')
+            return
+        self._decl(f.name, f.ret_type, o.try_type(body, env, None), env)
+
+    def _targ(self, names, bounds, out, recorded, env):
+        o = self.o
+        k = self.index
+        if k is None or k >= len(names):
+            return
+        n, new = names[k], recorded[k]
+        slot = out.get(n)
+        if slot is None or not (slot['exact'] or slot['lower'] or slot['upper'] or slot['soft']):
+            b = bounds.get(n)
+            b = o.subst(b, dict(zip(names, recorded))) if b is not None else None
+            inb = True if b is None else self._fits(new, b, env)
+            if inb is False:
+                self.verdict = ('rejects', 'new argument %s violates the bound %s of %s' % (o.show(new), o.show(b), n))
+            elif inb is None:
+                self.verdict = ('undecided', 'bound check of %s not decided' % n)
+            else:
+                self.verdict = ('accepts', 'nothing in the program (constructor / call arguments, expected type) '
+                                           'constrains type parameter %s, so replacing its argument by %s cannot make '
+                                           'the program ill-typed' % (n, o.show(new)))
+            return
+        for e in slot['exact']:
+            if e != new:
+                self.verdict = ('rejects', '%s must be %s, is %s' % (n, o.show(e), o.show(new)))
+                return
+        for l in slot['lower']:
+            if self._fits(l, new, env) is False:
+                self.verdict = ('rejects', 'argument of type %s does not fit %s := %s' % (o.show(l), n, o.show(new)))
+                return
+        for u in slot['upper']:
+            if self._fits(new, u, env) is False:
+                self.verdict = ('rejects', '%s := %s does not fit the expected %s' % (n, o.show(new), o.show(u)))
+                return
+        self.verdict = ('undecided', 'constraints on %s are projections / not decided by the reference' % n)
+
+    def check_new(self, e, env, expected, where):
+        try:
+            self._targ(*self.o.constraints_new(e, env, expected), env)
+        except (Unknown, NoInfer, Mismatch) as ex:
+            self.verdict = ('undecided', str(ex))
+
+    def check_call(self, e, env, expected, where):
+        o = self.o
+        try:
+            d, m, params, ret = o.callee_signature(e, env)
+            if d is None or not d.type_parameters:
+                raise Unknown('not a generic function')
+            self._targ(*o.constraints_call(e, env, expected, d, m, params, ret), env)
+        except (Unknown, NoInfer, Mismatch) as ex:
+            self.verdict = ('undecided', str(ex))
+
+
 # ----------------------------------------------------------------------------------------------------------------
 # C03: one evaluation = one run of the real TypeErasure on one program under one enumeration order
 # ----------------------------------------------------------------------------------------------------------------
@@ -1503,7 +1613,8 @@ def judge_overwrite(M, before, after, text0, text1, t, program_after):
     """all checks of C04 on one run; returns (violations, info)"""
     import re
     viol = []
-    info = {'injected': bool(t.is_transformed), 'kind': None, 'unrelated': None}
+    info = {'injected': bool(t.is_transformed), 'kind': None, 'unrelated': None, 'reject': ('undecided', '')}
+    ch = []
     d = diff(before, after)
     groups, links, other = classify_overwrite_diff(M, before, after, d)
     o = Oracle(M, program_after)
@@ -1591,6 +1702,21 @@ def judge_overwrite(M, before, after, text0, text1, t, program_after):
     if text1 == text0:
         viol.append(('translation-changes', dict(where=opath, old=old_s, new=new_s,
                                                  expected='translation differs after an injection')))
+    # "a correct type checker must reject", as far as the local reference decides it
+    index = None
+    if kind in ('constructor-call', 'function-call') and ch:
+        index = int(re.sub(r'\D', '', ch[0][0]))
+    try:
+        rw = RejectWalker(o, onode, kind, index)
+        rw.program()
+        info['reject'] = rw.verdict
+    except RecursionError:
+        info['reject'] = ('undecided', 'reference recursion limit')
+    if info['reject'][0] == 'accepts':
+        viol.append(('must-reject', dict(where=opath, old=old_s, new=new_s, reason=info['reject'][1],
+                                         expected='the program with the injected type is ill-typed')))
+    info['where'] = opath
+    info['old'], info['new'] = old_s, new_s
     return viol, info
 
 
@@ -1675,7 +1801,8 @@ def hand_programs(M, lang):
     """name -> zero-argument builder of a fresh ast.Program in `lang`"""
     ast, tp = M.ast, M.tp
     f = M.builtins[lang]
-    S, I, ANY, VOID = f.get_string_type, f.get_integer_type, f.get_any_type, f.get_void_type
+    STR, I, ANY, VOID = f.get_string_type, f.get_integer_type, f.get_any_type, f.get_void_type
+    L = f.get_long_type
     FUNC, METHOD = ast.FunctionDeclaration.FUNCTION, ast.FunctionDeclaration.CLASS_METHOD
 
     def prog(*decls):
@@ -1697,83 +1824,83 @@ def hand_programs(M, lang):
     def unit(name, *stmts, kind=FUNC):
         return fun(name, [], VOID(), ast.Block(list(stmts)), kind)
 
-    def decl_vs_new():
+    def decl_vs_new(S, lit, O):
         T = tp.TypeParameter('T')
         foo = cls('Foo', tparams=[T])
         return prog(foo, unit('m', val('x', ast.New(foo.get_type().new([S()]), []), foo.get_type().new([S()]))))
 
-    def ctor_arg():
+    def ctor_arg(S, lit, O):
         T = tp.TypeParameter('T')
         a = cls('A', fields=[ast.FieldDeclaration('f', T)], tparams=[T])
-        return prog(a, unit('m', val('s', ast.StringConstant('a'), S()),
+        return prog(a, unit('m', val('s', lit(), S()),
                             val('y', ast.New(a.get_type().new([S()]), [ast.Variable('s')]), a.get_type().new([S()]))))
 
-    def recursion():
+    def recursion(S, lit, O):
         r = cls('R', funcs=[fun('again', [], S(), ast.FunctionCall('again', [], receiver=ast.New(
             tp.SimpleClassifier('R', []), [])), METHOD)])
         return prog(fun('rec', [], S(), ast.FunctionCall('rec', [])), r,
-                    fun('plain', [], S(), ast.StringConstant('s')))
+                    fun('plain', [], S(), lit()))
 
-    def subtype_init():
+    def subtype_init(S, lit, O):
         base = cls('Base')
         der = cls('Derived', supers=[ast.SuperClassInstantiation(base.get_type(), [])])
         return prog(base, der, unit('m', val('x', ast.New(der.get_type(), []), base.get_type())))
 
-    def generic_call():
+    def generic_call(S, lit, O):
         T = tp.TypeParameter('T')
         U = tp.TypeParameter('U')
         ident = fun('ident', [ast.ParameterDeclaration('x', T)], T, ast.Variable('x'), tparams=[T])
         mk = fun('mk', [], U, ast.BottomConstant(U), tparams=[U])
         return prog(ident, mk, unit(
-            'm', val('a', ast.FunctionCall('ident', [ast.CallArgument(ast.StringConstant('s'))], type_args=[S()]), S()),
+            'm', val('a', ast.FunctionCall('ident', [ast.CallArgument(lit())], type_args=[S()]), S()),
             val('b', ast.FunctionCall('mk', [], type_args=[S()]), S())))
 
-    def generic_super():
+    def generic_super(S, lit, O):
         T = tp.TypeParameter('T')
         a = cls('A', tparams=[T])
         T2 = tp.TypeParameter('T')
         b = cls('B', tparams=[T2], supers=[ast.SuperClassInstantiation(a.get_type().new([T2]), [])])
         return prog(a, b, unit('m', val('x', ast.New(b.get_type().new([S()]), []), a.get_type().new([S()]))))
 
-    def field_init():
-        k = cls('K', fields=[ast.FieldDeclaration('f', S()), ast.FieldDeclaration('g', I())], funcs=[
+    def field_init(S, lit, O):
+        k = cls('K', fields=[ast.FieldDeclaration('f', S()), ast.FieldDeclaration('g', O())], funcs=[
             unit('m', val('x', ast.Variable('f'), ANY(), final=False), ast.Assignment('x', ast.Variable('g')),
                  kind=METHOD),
             fun('n', [], ANY(), ast.Variable('f'), METHOD)])
         return prog(k)
 
-    def two_params():
+    def two_params(S, lit, O):
         X, Y = tp.TypeParameter('X'), tp.TypeParameter('Y')
         p = cls('P', fields=[ast.FieldDeclaration('f', X)], tparams=[X, Y])
-        t = lambda: p.get_type().new([S(), I()])
-        return prog(p, unit('m', val('p', ast.New(t(), [ast.StringConstant('s')]), t())))
+        t = lambda: p.get_type().new([S(), O()])
+        return prog(p, unit('m', val('p', ast.New(t(), [lit()]), t())))
 
-    def ret_block():
+    def ret_block(S, lit, O):
         T = tp.TypeParameter('T')
         a = cls('A', tparams=[T])
         return prog(a, fun('mk', [], a.get_type().new([S()]), ast.Block([ast.New(a.get_type().new([S()]), [])])))
 
-    def call_arg():
+    def call_arg(S, lit, O):
         T = tp.TypeParameter('T')
         a = cls('A', tparams=[T])
         take = fun('take', [ast.ParameterDeclaration('a', a.get_type().new([S()]))], VOID(), ast.Block([]))
         return prog(a, take, unit('m', ast.FunctionCall('take', [ast.CallArgument(ast.New(a.get_type().new([S()]), []))])))
 
-    def dup_targs():
+    def dup_targs(S, lit, O):
         foo, bar, baz = cls('Foo'), cls('Bar'), cls('Baz')
         T1, T2 = tp.TypeParameter('T1'), tp.TypeParameter('T2')
         a = cls('A', fields=[ast.FieldDeclaration('f', T2)], tparams=[T1, T2])
         return prog(foo, bar, baz, a, unit('m', ast.New(a.get_type().new([foo.get_type(), foo.get_type()]),
                                                          [ast.New(foo.get_type(), [])])))
 
-    def shared_type_object():
+    def shared_type_object(S, lit, O):
         T = tp.TypeParameter('T')
         foo = cls('Foo', tparams=[T])
         t = foo.get_type().new([S()])
         return prog(foo, unit('m', val('x', ast.New(t, []), foo.get_type().new([S()])),
                               val('y', ast.New(t, []), foo.get_type().new([S()]))))
 
-    def conditional_init():
+    def conditional_init(S, lit, O):
         base = cls('Base')
         d1 = cls('D1', supers=[ast.SuperClassInstantiation(base.get_type(), [])])
         d2 = cls('D2', supers=[ast.SuperClassInstantiation(base.get_type(), [])])
@@ -1781,7 +1908,394 @@ def hand_programs(M, lang):
                             base.get_type())
         return prog(base, d1, d2, unit('m', val('x', c, base.get_type())))
 
-    return dict(decl_vs_new=decl_vs_new, ctor_arg=ctor_arg, recursion=recursion, subtype_init=subtype_init,
+    scen = dict(decl_vs_new=decl_vs_new, ctor_arg=ctor_arg, recursion=recursion, subtype_init=subtype_init,
                 generic_call=generic_call, generic_super=generic_super, field_init=field_init, two_params=two_params,
                 ret_block=ret_block, call_arg=call_arg, dup_targs=dup_targs, shared_type_object=shared_type_object,
                 conditional_init=conditional_init)
+    out = {}
+    for name, fn in scen.items():
+        # element type String (TypeOverwriting never replaces String) and Long (it may)
+        out[name] = (lambda fn=fn: fn(STR, lambda: ast.StringConstant('s'), I))
+        out[name + '_long'] = (lambda fn=fn: fn(L, lambda: ast.IntegerConstant(7, L()), STR))
+    return out
+
+
+HAND = ['decl_vs_new', 'ctor_arg', 'recursion', 'subtype_init', 'generic_call', 'generic_super', 'field_init',
+        'two_params', 'ret_block', 'call_arg', 'dup_targs', 'shared_type_object', 'conditional_init']
+HAND = HAND + [h + '_long' for h in HAND]
+
+
+# ----------------------------------------------------------------------------------------------------------------
+# driver
+# ----------------------------------------------------------------------------------------------------------------
+
+# fixed seed lists: generator seeds 0..59 whose generation costs < 1 s (quick) / < 8 s (thorough) of CPU on the
+# unchanged tree (generation time varies from 0.02 s to minutes; the lists were chosen by that cost only)
+SEEDS_QUICK = {
+    'java': [0, 1, 2, 3, 4, 5, 7, 8, 9, 10],
+    'kotlin': [4, 5, 6, 14, 15, 19, 23, 25, 31, 33],
+    'groovy': [0, 3, 4, 6, 7, 10, 20, 21, 28, 29],
+    'scala': [2, 4, 11, 13, 16, 18, 19, 23, 24, 25],
+}
+SEEDS_THOROUGH = {
+    'java': [0, 1, 2, 3, 4, 5, 6, 7, 8, 9, 10, 11, 12, 13, 14, 15, 18, 20, 21, 23, 24, 25, 27, 28, 29, 30, 31, 32, 33,
+             34, 35, 36, 37, 39, 41, 42, 43, 44, 45, 46, 47, 48, 49, 50, 51, 52, 53, 54, 55, 56, 57, 58],
+    'kotlin': [0, 2, 3, 4, 5, 6, 9, 11, 12, 13, 14, 15, 16, 19, 23, 25, 26, 28, 30, 31, 32, 33, 36, 37, 38, 39, 40, 41,
+               44, 46, 47, 49, 50, 52, 53, 54, 55, 56, 57, 58, 59],
+    'groovy': [0, 2, 3, 4, 5, 6, 7, 8, 10, 11, 12, 14, 16, 18, 19, 20, 21, 24, 26, 27, 28, 29, 30, 31, 32, 33, 34, 35,
+               36, 37, 38, 39, 40, 41, 43, 45, 46, 47, 49, 50, 51, 52, 54, 55, 56, 57, 58, 59],
+    'scala': [0, 1, 2, 3, 4, 7, 8, 9, 10, 11, 12, 13, 14, 16, 18, 19, 23, 24, 25, 26, 27, 28, 29, 32, 34, 36, 37, 38,
+              41, 42, 43, 44, 45, 46, 47, 48, 50, 51, 52, 53, 54, 55, 57, 58, 59],
+}
+GEN_CPU_LIMIT = 60          # seconds of CPU per generated program (extra, VERIF_SEED-derived seeds may be expensive)
+
+
+class _Budget(Exception):
+    pass
+
+
+def _with_cpu_limit(seconds, fn):
+    import signal
+
+    def h(*a):
+        raise _Budget()
+    old = signal.signal(signal.SIGVTALRM, h)
+    signal.setitimer(signal.ITIMER_VIRTUAL, seconds)
+    try:
+        return fn()
+    finally:
+        signal.setitimer(signal.ITIMER_VIRTUAL, 0)
+        signal.signal(signal.SIGVTALRM, old)
+
+
+def build_input(M, source, lang, ident):
+    """the pristine program of an input"""
+    if source == 'hand':
+        return hand_programs(M, lang)[ident]()
+    return _with_cpu_limit(GEN_CPU_LIMIT, lambda: gen_program(M, lang, int(ident)))
+
+
+def _vio(kind, function, fi, detail):
+    d = dict(check='bounded[%s]' % kind, function=function)
+    d.update(fi)
+    for k, v in detail.items():
+        d[k] = v if isinstance(v, (int, float, bool, str)) or v is None else repr(v)
+    return d
+
+
+def eval_c03(M, P0, fi):
+    """one evaluation of C03: (violations, removed-annotation key, stats)"""
+    p = copy.deepcopy(P0)
+    before = snapshot(M, p)
+    try:
+        t, q = run_erasure(M, p, fi.get('steer'))
+    except Exception as e:        # noqa
+        return [_vio('erasure:exception', 'src.transformations.type_erasure.TypeErasure.visit_func_decl', fi,
+                     dict(exception=repr(e)[:300]))], None, None
+    after = snapshot(M, q)
+    viol, stats, removed = judge_erasure(M, before, after, q)
+    out = []
+    for kind, det in viol:
+        fn = ('src.transformations.type_erasure.TypeErasure.visit_func_decl' if kind == 'frame'
+              else 'src.analysis.type_dependency_analysis.is_combination_feasible')
+        out.append(_vio('erasure-' + kind, fn, fi, det))
+    key = tuple(sorted((k, opath) for k in removed for opath, _, _ in removed[k]))
+    stats['transformed'] = bool(t.is_transformed)
+    stats['example'] = [(k, removed[k][0][0], removed[k][0][2]) for k in removed if removed[k]][:2]
+    return out, key, stats
+
+
+def eval_c04(M, P0, fi, javac=None):
+    """one evaluation of C04: (violations, key, info)"""
+    p = copy.deepcopy(P0)
+    if fi.get('erased'):
+        run_erasure(M, p)
+    before = snapshot(M, p)
+    text0 = translate(M, p)
+    try:
+        t, q = run_overwriting(M, p, fi['rng'])
+    except Exception as e:        # noqa
+        return [_vio('overwrite:exception', 'src.transformations.type_overwriting.TypeOverwriting.visit_func_decl', fi,
+                     dict(exception=repr(e)[:300]))], None, {'injected': False}
+    after = snapshot(M, q)
+    text1 = translate(M, q)
+    viol, info = judge_overwrite(M, before, after, text0, text1, t, q)
+    out = [_vio('overwrite-' + kind, 'src.transformations.type_overwriting.TypeOverwriting.visit_func_decl', fi, det)
+           for kind, det in viol]
+    key = None
+    if info['injected']:
+        key = (info.get('where'), info.get('new'))
+        info['message'] = t.error_injected
+    if javac is not None and info['injected'] and p.language == 'java':
+        ok0 = javac('orig', text0)
+        if ok0:
+            ok1 = javac(None, text1)
+            info['javac'] = None if ok1 is None else (not ok1)
+            if ok1:
+                out.append(_vio('overwrite-must-reject:javac',
+                                'src.transformations.type_overwriting.TypeOverwriting.visit_func_decl', fi,
+                                dict(where=info.get('where'), old=info.get('old'), new=info.get('new'),
+                                     message=t.error_injected,
+                                     expected='javac rejects the Java translation (it accepts the input program)',
+                                     actual='javac accepts it')))
+        else:
+            info['javac'] = None
+    return out, key, info
+
+
+def _plan(prop, tier, seed):
+    """list of work items (one per pristine program): (prop, source, lang, ident, variants, use_javac)"""
+    rnd = _pyrandom.Random(seed)
+    quick = tier == 'quick'
+    items = []
+    hand = HAND
+    seeds = SEEDS_QUICK if quick else SEEDS_THOROUGH
+    extra = {l: [rnd.randrange(1000, 100000) for _ in range(0 if quick else 4)] for l in LANGS}
+    if prop == 'C03':
+        hsteers = [None] + [rnd.randrange(1 << 30) for _ in range(3 if quick else 8)]
+        gsteers = [None] + [rnd.randrange(1 << 30) for _ in range(1 if quick else 4)]
+        for lang in LANGS:
+            for h in hand:
+                items.append((prop, 'hand', lang, h, [dict(steer=s) for s in hsteers], False))
+            for sd in seeds[lang] + extra[lang]:
+                items.append((prop, 'generated', lang, sd, [dict(steer=s) for s in gsteers], False))
+    else:
+        hr = [1000 + i for i in range(4 if quick else 8)] + [rnd.randrange(1 << 30) for _ in range(2 if quick else 4)]
+        gr = [1000 + i for i in range(2 if quick else 6)] + [rnd.randrange(1 << 30) for _ in range(1 if quick else 4)]
+        for lang in LANGS:
+            for h in hand:
+                items.append((prop, 'hand', lang, h,
+                              [dict(erased=e, rng=r) for e in (False, True) for r in hr], not quick and lang == 'java'))
+            for sd in seeds[lang] + extra[lang]:
+                items.append((prop, 'generated', lang, sd,
+                              [dict(erased=e, rng=r) for e in (False, True) for r in gr], not quick and lang == 'java'))
+    return items
+
+
+_WM = {}
+
+
+def _worker_mods():
+    key = repo_path()
+    if key not in _WM:
+        _WM.clear()
+        _WM[key] = load(key)
+    return _WM[key]
+
+
+def _work(item):
+    prop, source, lang, ident, variants, use_javac = item
+    M = _worker_mods()
+    res = dict(item=(prop, source, lang, ident), evaluations=0, keys=[], violations=[], skipped=None, stats={},
+               samples=[])
+    try:
+        P0 = build_input(M, source, lang, ident)
+    except _Budget:
+        res['skipped'] = 'generation exceeded %d s of CPU' % GEN_CPU_LIMIT
+        return res
+    except Exception as e:      # noqa - a generator failure is C18's business, not this property's
+        res['skipped'] = 'generator raised %r' % (e,)
+        return res
+    agg = {}
+    jcache = {}
+    jcount = [0]
+    t_start = time.time()
+
+    def javac(tag, text):
+        if tag == 'orig':
+            k = hash(text)
+            if k not in jcache:
+                jcache[k] = javac_accepts(text)
+            return jcache[k]
+        if jcount[0] >= 3 or time.time() - t_start > 240:
+            return None
+        jcount[0] += 1
+        return javac_accepts(text)
+    seen_inj = set()
+    for v in variants:
+        fi = dict(prop=prop, source=source, lang=lang, ident=ident)
+        fi.update(v)
+        if prop == 'C03':
+            viol, key, stats = eval_c03(M, P0, fi)
+            res['evaluations'] += 1
+            if key:
+                res['keys'].append((lang, source, ident) + (key,))
+            if stats:
+                for k in ('var', 'ret', 'new', 'call', 'ok', 'undecided', 'violation'):
+                    agg[k] = agg.get(k, 0) + stats[k]
+                for k, n in stats['undecided_why'].items():
+                    agg.setdefault('why', {})
+                    agg['why'][k] = agg['why'].get(k, 0) + n
+                if not res['samples'] and stats['example']:
+                    res['samples'].append(dict(input=fi, removed={k: stats[k] for k in ('var', 'ret', 'new', 'call')},
+                                               example=repr(stats['example'])))
+        else:
+            first = None
+            use = None
+            if use_javac:
+                use = javac
+            viol, key, info = eval_c04(M, P0, fi, None)
+            if use is not None and key is not None and key not in seen_inj:
+                viol, key, info = eval_c04(M, P0, fi, use)
+            res['evaluations'] += 1
+            if key is not None:
+                seen_inj.add(key)
+                res['keys'].append((lang, source, ident, bool(v.get('erased'))) + key)
+                agg['injected'] = agg.get('injected', 0) + 1
+                agg['kind:' + str(info.get('kind'))] = agg.get('kind:' + str(info.get('kind')), 0) + 1
+                agg['reject:' + info['reject'][0]] = agg.get('reject:' + info['reject'][0], 0) + 1
+                if 'javac' in info and info['javac'] is not None:
+                    agg['javac:rejects' if info['javac'] else 'javac:accepts'] = agg.get(
+                        'javac:rejects' if info['javac'] else 'javac:accepts', 0) + 1
+                u = info.get('unrelated')
+                agg['unrelated:' + ('yes' if u is True else 'no' if u is False else 'undecided')] = agg.get(
+                    'unrelated:' + ('yes' if u is True else 'no' if u is False else 'undecided'), 0) + 1
+                if not res['samples']:
+                    res['samples'].append(dict(input=fi, message=info.get('message'), kind=info.get('kind'),
+                                               reject=info['reject'][0]))
+            else:
+                agg['not-injected'] = agg.get('not-injected', 0) + 1
+        res['violations'].extend(viol)
+    res['stats'] = agg
+    return res
+
+
+def run(tier, seed, stop_first=False, prop='C03', workers=None):
+    items = _plan(prop, tier, seed)
+    workers = workers or int(os.environ.get('VERIF_WORKERS', '0')) or (8 if tier == 'quick' else 16)
+    workers = max(1, min(workers, os.cpu_count() or 1))
+    from concurrent.futures import ProcessPoolExecutor, as_completed
+    results = [None] * len(items)
+    # expensive (generated, large) items first so that the pool drains evenly
+    order = sorted(range(len(items)), key=lambda i: (items[i][1] != 'generated', i))
+    stop = False
+    if workers == 1:
+        for i in order:
+            results[i] = _work(items[i])
+            if stop_first and results[i]['violations']:
+                break
+    else:
+        import multiprocessing
+        ctx = multiprocessing.get_context('fork')
+        with ProcessPoolExecutor(max_workers=workers, mp_context=ctx) as ex:
+            futs = {ex.submit(_work, items[i]): i for i in order}
+            for f in as_completed(futs):
+                i = futs[f]
+                results[i] = f.result()
+                if stop_first and results[i]['violations']:
+                    for g in futs:
+                        g.cancel()
+                    stop = True
+                    break
+    evals = 0
+    keys = set()
+    violations = []
+    seen = set()
+    samples = []
+    skipped = []
+    agg = {}
+    allv = {}
+    for r in results:
+        if r is None:
+            continue
+        evals += r['evaluations']
+        keys.update(r['keys'])
+        if r['skipped']:
+            skipped.append('%s/%s: %s' % (r['item'][2], r['item'][3], r['skipped']))
+        for k, v in r['stats'].items():
+            if isinstance(v, dict):
+                d = agg.setdefault(k, {})
+                for a, b in v.items():
+                    d[a] = d.get(a, 0) + b
+            else:
+                agg[k] = agg.get(k, 0) + v
+        for v in r['violations']:
+            allv.setdefault(v['check'], []).append(v)
+        if r['samples'] and len(samples) < 3 and r['item'][1] == 'generated':
+            samples.extend(r['samples'][:1])
+    pref = {'kotlin': 0, 'scala': 1, 'groovy': 2, 'java': 3}
+    for chk in sorted(allv):
+        # one representative per kind: the smallest input (hand-built first), Kotlin first (its translation shows it)
+        best = min(allv[chk], key=lambda v: (v.get('source') != 'hand', pref.get(v.get('lang'), 9), str(v.get('ident'))))
+        best = dict(best)
+        best['occurrences'] = len(allv[chk])
+        violations.append(best)
+    nprog = len([r for r in results if r is not None and not r['skipped']])
+    if prop == 'C03':
+        why = agg.pop('why', {})
+        rule = ('%d programs (13 hand-built scenarios x 2 element types x 4 languages; generator seeds %s per language, chosen by generation '
+                'cost only%s) x enumeration orders of equally large candidate sets (natural + VERIF_SEED-derived), each '
+                'run through the real TypeErasure on a deep copy. Per run: (1) structural snapshot of every attribute of '
+                'every node, of the symbol table and of every recorded type before/after - only VariableDeclaration.var_type '
+                '-> None, FunctionDeclaration.ret_type -> None and the inference flag False -> True of a constructor call\'s '
+                'type / a generic call may differ (global variables are accepted as variables; FunctionCall.type_parameters, '
+                'a callee link the analysis caches, may only become the type-parameter list of a declaration of the called '
+                'name); (2) for every removed annotation the reference in specs/mutations_ref.py (own scoping, members '
+                'through the inheritance chain, constraints from constructor / call arguments and the expected type) '
+                'computes what a compiler infers and compares it with the recorded type: %d removed annotations judged '
+                '(var %d, return %d, constructor type arguments %d, call type arguments %d): %d hold, %d violated, %d '
+                'undecided by the reference (never counted either way: %s). Not checked: full re-typing of all uses after '
+                'inference (only re-assignments of a narrowed variable). A run is non-trivial if it removed at least one '
+                'annotation; distinct by (language, program, set of removed annotations)'
+                % (nprog, 'SEEDS_QUICK' if tier == 'quick' else 'SEEDS_THOROUGH + 4 VERIF_SEED-derived',
+                   '; skipped: ' + '; '.join(skipped) if skipped else '',
+                   agg.get('ok', 0) + agg.get('violation', 0) + agg.get('undecided', 0), agg.get('var', 0),
+                   agg.get('ret', 0), agg.get('new', 0), agg.get('call', 0), agg.get('ok', 0), agg.get('violation', 0),
+                   agg.get('undecided', 0), ', '.join('%s x%d' % kv for kv in sorted(why.items(), key=lambda kv: -kv[1])[:4])))
+    else:
+        rule = ('%d programs (13 hand-built scenarios x 2 element types x 4 languages; generator seeds %s per language%s), each both as '
+                'generated and after TypeErasure, x RNG seeds of the mutation (fixed + VERIF_SEED-derived), run through the '
+                'real TypeOverwriting on a deep copy. When an injection is reported (%d runs): structural diff = exactly '
+                'one declaration\'s declared+recorded type or exactly one explicit type argument (kinds: %s); new type '
+                'unrelated to the replaced one (to its bound for a type variable) by declarative nominal subtyping over the '
+                'program\'s class table plus Java/Groovy boxing / primitive widening (unrelated %d, undecided %d); message '
+                '= "<old> expected but <new> found in node <id>" with id naming the mutated node inside its enclosing '
+                'declaration; translation differs. When nothing is reported (%d runs): no message, byte-identical '
+                'translation, identical structure. "A correct checker must reject" is only approximated: the local '
+                'reference says rejects %d / undecided %d / accepts %d (accepts = no constraint at all on the replaced type '
+                'argument, or all constraints compatible)%s. Non-trivial: an injection was reported; distinct by '
+                '(language, program, erased?, mutated node, new type)'
+                % (nprog, 'SEEDS_QUICK' if tier == 'quick' else 'SEEDS_THOROUGH + 4 VERIF_SEED-derived',
+                   '; skipped: ' + '; '.join(skipped) if skipped else '', agg.get('injected', 0),
+                   ', '.join('%s %d' % (k[5:], v) for k, v in sorted(agg.items()) if k.startswith('kind:')),
+                   agg.get('unrelated:yes', 0), agg.get('unrelated:undecided', 0), agg.get('not-injected', 0),
+                   agg.get('reject:rejects', 0), agg.get('reject:undecided', 0), agg.get('reject:accepts', 0),
+                   ('; real javac on the Java translations of up to 3 distinct injections per Java program whose input '
+                    'compiles: rejects %d, accepts %d' % (agg.get('javac:rejects', 0), agg.get('javac:accepts', 0)))
+                   if tier != 'quick' else '; javac is only run in the thorough tier'))
+    out = dict(evaluations=evals, distinct_nontrivial=len(keys), rule=rule, samples=samples, violations=violations,
+               exhaustive=False, programs=nprog, counts={k: v for k, v in agg.items() if not isinstance(v, dict)})
+    if stop:
+        out['stopped_at_first'] = True
+    return out
+
+
+def replay(fi):
+    """re-execute one recorded input on the current tree; True if the property holds on it"""
+    M = load()
+    prop = fi.get('prop', 'C03')
+    P0 = build_input(M, fi['source'], fi['lang'], fi['ident'])
+    if prop == 'C03':
+        viol, key, stats = eval_c03(M, P0, fi)
+    else:
+        use = None
+        if str(fi.get('check', '')).endswith('javac]'):
+            use = lambda tag, text: javac_accepts(text)
+        viol, key, info = eval_c04(M, P0, fi, use)
+    want = fi.get('check')
+    hit = [v for v in viol if want is None or v['check'] == want]
+    for v in hit[:3]:
+        print('%s on %s/%s/%s: %s' % (v['check'], fi['source'], fi['lang'], fi['ident'],
+                                      {k: v[k] for k in v if k not in ('check', 'function', 'prop', 'source', 'lang',
+                                                                         'ident')}))
+    return not hit
+
+
+if __name__ == '__main__':
+    import json
+    tier = sys.argv[1] if len(sys.argv) > 1 else 'quick'
+    prop = sys.argv[2] if len(sys.argv) > 2 else 'C03'
+    t0 = time.time()
+    r = run(tier, int(os.environ.get('VERIF_SEED', '1')), prop=prop)
+    r['wall_seconds'] = round(time.time() - t0, 1)
+    print(json.dumps(r, indent=1, default=str))
